@@ -251,7 +251,7 @@ def _run_requests(e: EqvCase, sim, ctx, gperm=None) -> tuple:
             res = sim.calculate_divide(f"v{v}", str(p) if (v + getattr(e, "req_seed", 0)) % 2 else p)
             if gperm is not None and c.vars[v].entity != 0:
                 res = res[gperm]
-            divs.append("ok:" + ",".join(repr(float(x)) for x in np.asarray(res).tolist()))
+            divs.append("ok:" + ",".join(repr(float(x) + 0.0) for x in np.asarray(res).tolist()))      # (-0.0 and 0.0 are the same value)
         except Exception as exc:
             divs.append(rs.classify(exc))
     ctx.armed.clear()
@@ -268,12 +268,15 @@ def _set_inputs(part: rs.SysCase, sim, E5):
 def _build_direct(e: EqvCase, part: rs.SysCase, pids, gids, tbs, E5):
     """the part as a simulation made by hand: `manual` (counts, members_entity_id, members_role),
     `norole` (members_role left unset when everybody holds the first role: its default),
-    `join` (SimulationBuilder.declare_person_entity / declare_entity / join_with_persons — only when
-    every household has a member)"""
+    `join` (SimulationBuilder.declare_person_entity / declare_entity / join_with_persons: persons are
+    attached to the declared households by identifier — text or integer identifiers, in any order,
+    of any width, declared households without member in any position)"""
     from openfisca_core import simulations
     mode = getattr(e, "direct_mode", "manual")
     roles = list(part.roles or [0] * part.nP)
-    if mode == "join" and set(part.mem) == set(range(part.nG)):
+    if mode == "join":
+        if getattr(e, "int_ids", False):
+            pids, gids = [int(x) for x in pids], [int(x) for x in gids]
         b = simulations.SimulationBuilder()
         b.create_entities(tbs)
         b.declare_person_entity("person", pids)
@@ -744,10 +747,15 @@ def gen_eqv(rng: random.Random, direct=False, faults=True, bad_rate=0.0, unliste
     sels.append(("permuted-part", ps, gs))
     style = rng.choice(["plain", "plain", "shuffled", "int", "shared"])
     int_ids = False
-    if style == "int":                            # Python int keys (YAML-style documents); households may reuse the persons' numbers
+    if style == "int" and direct:                 # integer identifiers of different widths and signs (join_with_persons): text order
+        int_ids = True                            # is not numeric order
+        pool = [-120, -12, -3, 0, 2, 7, 8, 9, 10, 11, 12, 19, 20, 21, 99, 100, 101, 110, 999, 1000, 1001, 10000]
+        pids = [str(x) for x in rng.sample(pool, nP)]
+        gids = [str(x) for x in rng.sample(pool, nG)]
+    elif style == "int":                          # Python int keys (YAML-style documents); households may reuse the persons' numbers
         int_ids = True
         pids = [str(x) for x in rng.sample(range(1, 40), nP)]
-        gids = [str(x) for x in rng.sample(range(100, 140) if own else range(1, 40), nG)]
+        gids = [str(x) for x in rng.sample(range(100, 140) if own else [3, 7, 8, 9, 10, 11, 12, 20, 35, 99, 100, 101, 1000, 38, 2, 5, 1, 19, 21, 30], nG)]
     elif style == "shared" and not own:           # the same names on both sides: person "x1" and household "x1" are different things
         pids = [f"x{i}" for i in range(nP)]
         gids = [f"x{g}" for g in range(nG)]
@@ -758,7 +766,7 @@ def gen_eqv(rng: random.Random, direct=False, faults=True, bad_rate=0.0, unliste
         if style != "plain":                      # ids that do not sort like the indices
             rng.shuffle(pids); rng.shuffle(gids)
     e = EqvCase(c, pids, gids, sels, direct=direct, member_seed=rng.randrange(1 << 30), own=own, psit=psit, gsit=gsit, absent=absent,
-                direct_mode=rng.choice(["manual", "norole", "join", "join"]), int_ids=int_ids, short_form=rng.random() < 0.7,
+                direct_mode=("join" if int_ids else rng.choice(["manual", "norole", "join", "join"])) if direct else "manual", int_ids=int_ids, short_form=rng.random() < 0.7,
                 trace=rng.random() < 0.2, req_seed=rng.randrange(3), divs=divs,
                 default_tok=rng.choice([i[1] for i in inputs if not i[1].startswith("eternity")] or [""]) if rng.random() < 0.3 else "")
     tags = ["direct" if direct else "builder", f"situations={k}", f"persons={nP}", f"households={nG}", f"ids={style}"]
@@ -1022,7 +1030,8 @@ PROP = Prop(
           "single-household ('household': ...), single-person ('person': ...) and variables-only spellings when the part allows them; 30% of "
           "the inputs on variables WITHOUT formula are absent (or null) in one situation: its entities read the default alone and together. "
           "Direct stream: by hand, by hand with members_role left to its default, or declare_person_entity / declare_entity / "
-          "join_with_persons (populations where every household has a member) with roles as keys or as indices. Requests: a third of the "
+          "join_with_persons (text or integer identifiers of different widths and signs, in any order, declared households without member in "
+          "any position) with roles as keys or as indices. Requests: a third of the "
           "periods are passed as text, 5% of the cases ask for a variable that does not exist, 20% run every simulation with trace=True, "
           "up to 3 calculate_divide requests per case (year variable for a month, month variable for a day, day for a day, a refused one), "
           "answered after the other requests and compared by the oracle only (identity of the quotients); calculate_add: 15% of the requests "
@@ -1042,8 +1051,6 @@ PROP = Prop(
         "roles respect their maxima (one head, two parents per household); value_from_person is used with the unique role only",
         "a document is one dict: two situations cannot bring the same person or household id (the second would overwrite the first before "
         "the builder sees it); axes belong to the document, not to a situation (they replicate the whole merged population): C12's subject",
-        "join_with_persons is exercised on populations in which every declared household has a member (with a member-less household it "
-        "attaches persons to the wrong household at HEAD: reported, not recorded)",
         "max_spiral_loops, trace and the request sequence are identical on the merged and the separate simulations; storage configuration is C17's",
         "values are small integers, exactly representable in float32/int32 (numeric policy, DESIGN section 4); larger results are not compared",
         "numpy primitives used by the group operations (bincount, fancy indexing) are modelled",
